@@ -135,6 +135,10 @@ func (env *Env) parseType(text string) types.Type {
 		}
 		return nil
 	}
+	if text == "mapref" {
+		// any map value (maps are references); used where a specification only passes a map along
+		return types.NewMap(types.Typ[types.String], types.NewStruct(nil, nil))
+	}
 	if o := types.Universe.Lookup(text); o != nil {
 		if tn, ok := o.(*types.TypeName); ok {
 			return tn.Type()
@@ -752,6 +756,16 @@ func (env *Env) call(x *ECall) SVal {
 	case "runes":
 		v := env.value(env.eval(x.Args[0]))
 		return SVal{T: env.a.runeCount(v.T), Typ: tInt, Sort: "Int"}
+	case "neginf":
+		// neginf(): math.Inf(-1) as the program sees it (an uninterpreted real below every finite value only by axiom)
+		return SVal{T: app(d.Fun("math_Inf", []string{"Int"}, "Real"), "(- 1)"), Typ: types.Typ[types.Float64], Sort: "Real"}
+	case "strOf":
+		// strOf(bs): the string a byte slice was converted from ([]byte(s)); uninterpreted otherwise
+		v := env.value(env.eval(x.Args[0]))
+		if v.Sort != "Slice" {
+			fail("strOf of non-slice")
+		}
+		return SVal{T: app(d.Fun("str_of_bytes", []string{"Slice"}, "Str"), v.T), Typ: types.Typ[types.String], Sort: "Str"}
 	case "base":
 		// base(xs): the backing array of a slice
 		xs := env.value(env.eval(x.Args[0]))
